@@ -318,6 +318,7 @@ def im2col(a:np.ndarray, kernel_size, dilation=1, stride=1, padding=0, pad_value
            [5., 6., 8., 9.]])
     """
     
+    kernel_size = np.broadcast_to(kernel_size, 2)
     padding = np.broadcast_to(padding, 2)
     # Pad input
     x_padded = np.pad(
@@ -552,6 +553,7 @@ def im2col_fast(a:np.ndarray, kernel_size, dilation=1, stride=1, padding=0, pad_
     """
     assert len(a.shape) == 4, "Input tensor must be of shape (N, C, H, W)"
     N, C, H, W = a.shape
+    kernel_size = np.broadcast_to(kernel_size, 2)
     
     windows = extract_windows(a, kernel_size=kernel_size, step=stride, padding=padding, dilation=dilation, pad_value=pad_value)
     
